@@ -21,7 +21,10 @@ RULE = ("Five generators under ASan/UBSan. (seeds) every archived input of /repo
         "inside <points-observations>; (trunc) every prefix of every seed file; (split) every two-chunk delivery of every seed "
         "file compared with one-piece delivery; (fuzz_*) coverage-guided libFuzzer campaigns on the real main() and on the "
         "gama-g3 / adjustment-input / adjustment-result readers with option bytes decoded from the unit; (accept) grammar-derived "
-        "valid documents from the network generators must not be refused by the parser. Oracle: no sanitizer report, return "
+        "valid documents from the network generators must not be refused by the parser; (lexical) an equivalent spelling of such a "
+        "document - numbers re-spelled inside the documented literal grammar (sign, leading / trailing zeros, exponent forms, blanks), attribute "
+        "order, quote style, white space and line breaks inside tags, explicit end tags, comments, numeric character references, "
+        "CR LF, XML declaration variants / BOM; equivalence confirmed by comparing the infosets with Python expat - must be accepted with the same results. Oracle: no sanitizer report, return "
         "from main, well-formed XML output, a refusal carries a non-empty message and a line inside the input. "
         "Non-trivial = a document that reaches the element handlers (all enumerated documents; for fuzzing the units kept "
         "in the coverage corpus); distinct by construction (enumeration) / by libFuzzer's corpus.")
@@ -393,6 +396,173 @@ def oracle_accept(c, stats):
 
 
 
+# ------------------------------------------------------------------ equivalent spellings of one valid document
+
+NUM_ATTRS = {"x", "y", "z", "val", "stdev", "dist", "from_dh", "to_dh", "bs_dh", "fs_dh", "dx", "dy", "dz", "sigma-apr",
+             "conf-pr", "tol-abs", "epoch", "latitude", "direction-stdev", "angle-stdev", "zenith-angle-stdev",
+             "azimuth-stdev", "distance-stdev"}
+NMTOKEN_VAL = {"direction", "angle", "z-angle", "azimuth"}      # val is xs:NMTOKEN there (sexagesimal values): no '+', no '-'
+FLOAT_RE = re.compile(r"^-?\d+(\.\d+)?([eE][+-]?\d+)?$")
+TAG_RE = re.compile(r'<([A-Za-z][\w:.-]*)((?:\s+[\w:.-]+="[^"]*")*)\s*(/?)>')
+ATTR_RE = re.compile(r'([\w:.-]+)="([^"]*)"')
+COV_RE = re.compile(r"(<cov-mat[^>]*>)([^<]*)(</cov-mat>)")
+
+
+def respell(s, c, restricted):
+    """another literal of the same decimal value within [+-]?digits[.digits][(e|E)[+-]?digits] (xs:double of the XSD, the
+    must-accept set of C18); restricted = a value the parser may also read as d-m-s: digits, point and a positive exponent only"""
+    import decimal
+    if not FLOAT_RE.match(s):
+        return s
+    d = decimal.Decimal(s)
+    neg = s.startswith("-")
+    a = abs(d)
+    sign = "-" if neg else ""
+    plain = format(a, "f")
+    k = c // 8 % 4 + 1
+    form = c % 8
+    if form == 0:
+        return s
+    if form == 1:
+        return sign + (plain + "00" if "." in plain else plain + ".0")
+    if form == 2:
+        return sign + "00" + plain
+    if form == 3:
+        return sign + format(a.scaleb(-k), "f") + "e" + str(k)
+    if form == 4:
+        return sign + format(a.scaleb(-k), "f") + ("E" if restricted else "E+") + str(k)
+    if restricted:
+        return sign + plain
+    if form == 5:
+        return sign + format(a.scaleb(k), "f") + "e-" + str(k)
+    if form == 6:
+        return (sign or "+") + plain
+    return " " + sign + plain + "  "
+
+
+def charref(v, c):
+    """one character of an attribute value written as a numeric character reference"""
+    i = c % len(v)
+    if v[i] in "&;<>\"'" or "&" in v:
+        return v
+    return v[:i] + ("&#%d;" % ord(v[i]) if c & 64 else "&#x%X;" % ord(v[i])) + v[i + 1:]
+
+
+def lexical_variant(text, ch, flags):
+    n = [0]
+
+    def nxt():
+        n[0] += 1
+        return ch[n[0] % len(ch)] + 7 * n[0]
+
+    def tag(m):
+        name, attrs, close = m.group(1), ATTR_RE.findall(m.group(2)), m.group(3)
+        out = []
+        for an, av in attrs:
+            c = nxt()
+            if flags["numbers"] and an in NUM_ATTRS:
+                av = respell(av, c, (an == "val" and name in NMTOKEN_VAL) or an == "latitude")
+            if flags["charref"] and av and c % 5 == 0:
+                av = charref(av, c // 5)
+            q = "'" if (flags["quotes"] and c % 3 == 0 and "'" not in av) else '"'
+            eq = " = " if (flags["space"] and c % 7 == 0) else "="
+            out.append(an + eq + q + av + q)
+        c = nxt()
+        if flags["order"] and len(out) > 1:
+            r = c % len(out)
+            out = out[r:] + out[:r]
+            if c & 16:
+                out.reverse()
+        sep = ["\n    ", "\t", "  "][c % 3] if flags["space"] else " "
+        body = "<" + name + "".join(sep + a for a in out)
+        if close:
+            body += ("></%s>" % name) if (flags["endtag"] and c & 32) else (" />" if c & 1 else "/>")
+        else:
+            body += ">"
+        if flags["comment"] and c % 11 == 0:
+            body += "<!-- %s -- not a tag: <point id='c'/> -->".replace(" -- ", " - ") % name
+        return body
+
+    def cov(m):
+        toks = []
+        for t in m.group(2).split():
+            c = nxt()
+            toks.append(respell(t, c, False).strip() if flags["numbers"] else t)
+            toks.append(["\n", " ", "\t", "  \n  "][c % 4] if flags["space"] else " ")
+        return m.group(1) + "\n" + "".join(toks) + m.group(3)
+
+    out = COV_RE.sub(cov, text)
+    out = TAG_RE.sub(tag, out)
+    decl = flags["decl"]
+    if out.startswith("<?xml"):
+        end = out.index("?>") + 2
+        rest = out[end:]
+        if decl == 1:
+            out = rest.lstrip()
+        elif decl == 2:
+            out = '<?xml version="1.0" encoding="UTF-8" standalone="yes"?>' + rest
+        elif decl == 3:
+            out = "﻿" + out
+    if flags["crlf"]:
+        out = out.replace("\n", "\r\n")
+    return out
+
+
+def infoset(text):
+    """what an XML processor hands to the application, numbers by value (my own check that a variant is equivalent)"""
+    import decimal
+    import xml.etree.ElementTree as ET
+    root = ET.fromstring(text.lstrip("﻿").encode("utf-8"))
+
+    def walk(e):
+        at = {}
+        for k, v in e.attrib.items():
+            at[k] = str(decimal.Decimal(v.strip()).normalize()) if (k in NUM_ATTRS and FLOAT_RE.match(v.strip().lstrip("+"))) else v
+        tx = (e.text or "")
+        tagname = e.tag.split("}")[-1]
+        if tagname == "cov-mat":
+            tx = [str(decimal.Decimal(t).normalize()) for t in tx.split()]
+        elif tagname != "description":
+            tx = tx.strip()
+        return (tagname, sorted(at.items()), tx, [walk(c) for c in e])
+    return walk(root)
+
+
+@st.composite
+def lexical_case(draw):
+    c = draw(valid_doc())
+    c["ch"] = draw(st.lists(st.integers(0, 4095), min_size=24, max_size=24))
+    fl = {k: draw(st.booleans()) for k in ("numbers", "quotes", "space", "order", "endtag", "comment", "charref", "crlf")}
+    fl["decl"] = draw(st.integers(0, 3))
+    if not any(fl.values()):
+        fl["numbers"] = True
+    c["flags"] = fl
+    return c
+
+
+def oracle_lexical(c, stats):
+    from . import c10
+    text = nm.gkf_text(c["net"])
+    var = lexical_variant(text, c["ch"], c["flags"])
+    if infoset(text) != infoset(var):
+        raise AssertionError("harness: lexical variant is not equivalent to the canonical document")
+    for k, v in c["flags"].items():
+        if v:
+            stats.label("lex.%s" % k)
+    x0, e = c10.run(None, c["alg"], text)
+    if e:
+        return ["lexical.canonical." + e]
+    x1, e = c10.run(None, c["alg"], var)
+    if e:
+        return ["lexical.variant." + e]
+    if "error" in x1 and x1["error"]["category"] == "gamaLocalParserError" and "error" not in x0:
+        return ["lexical.refused: an equivalent spelling of an accepted document is refused: %s line %s" %
+                (x1["error"]["descriptions"], x1["error"]["line"])]
+    if "error" not in x0:
+        stats.label("lex.adjusted")
+    return c10.compare("lexical", x0, x1, stats)
+
+
 # ------------------------------------------------------------------ declared input encodings / --encoding of the text output
 
 IN_ENC = {"utf-8": "utf-8", "iso-8859-2": "iso8859_2", "cp-1250": "cp1250", "windows-1250": "cp1250",
@@ -537,6 +707,8 @@ PARTS = [
     Part("split", custom=run_split, n={"quick": 1, "thorough": 1}, workers=NCPU),
     Part("accept", strategy=valid_doc, oracle=oracle_accept, n={"quick": 300, "thorough": 6000},
          sample=lambda c: nm.gkf_text(c["net"])[:600]),
+    Part("lexical", strategy=lexical_case, oracle=oracle_lexical, n={"quick": 800, "thorough": 12000},
+         nontrivial=lambda c: True, sample=lambda c: lexical_variant(nm.gkf_text(c["net"]), c["ch"], c["flags"])[:700]),
     Part("seeds_data", custom=run_seeds_data, n={"quick": 1, "thorough": 1}),
     Part("fuzz_gkf", custom=run_fuzz_gkf, n={"quick": 1, "thorough": 1}),
     Part("fuzz_data", custom=run_fuzz_data, n={"quick": 1, "thorough": 1}),
